@@ -308,6 +308,7 @@ def run_lib_threads_job(cs, calls, sched_seed, preempt_permille):
     from ascmhl import hasher
 
     sched = SCHED = Scheduler(cs, sched_seed, preempt_permille)
+    sched.max_steps = 5_000_000  # (read loops over many small reads take many scheduling decisions)
     sched.main.os_thread = threading.current_thread()
     TRACE_PREFIXES = (os.path.join(core.REPO, "ascmhl", "hasher.py"),)
     results = [None] * len(calls)
